@@ -111,14 +111,17 @@ def cmd_seeded(ids):
                 print(f"ERROR {sid}: patch does not apply: {r.stdout[-300:]}")
                 continue
             rows = []
+            kinds = set()
             for cid in meta.get("checks", [meta["property"]]):
                 rc, out, wall = run_check(cid, d)
                 last = [l for l in out.strip().splitlines() if l.startswith(("VIOLATION", "HELD", "INCONCLUSIVE"))]
                 rows.append((cid, rc, wall, last[-1] if last else out.strip()[-200:]))
+                kinds.update(l.split("kind=", 1)[1].split(":", 1)[0] for l in out.splitlines() if "violation kind=" in l)
             caught = any(rc == 1 for _, rc, _, _ in rows)
             results.append((sid, caught))
             print(f"{'CAUGHT' if caught else 'MISSED'} seeded/{sid} ({meta['property']}) " +
-                  "; ".join(f"{cid} rc={rc} {wall:.0f}s" for cid, rc, wall, _ in rows), flush=True)
+                  "; ".join(f"{cid} rc={rc} {wall:.0f}s" for cid, rc, wall, _ in rows) +
+                  (" kinds=" + ",".join(sorted(kinds)) if kinds else ""), flush=True)
             if not caught:
                 for cid, rc, wall, last in rows:
                     print("     ", cid, last[:300])
